@@ -34,10 +34,11 @@ func withAnchors(c *Ctx, f func(a *serverAnchors)) {
 
 func init() {
 	register("C01",
-		"Decides, on every control-flow path, the mechanism that makes one-fetch-per-unknown-key possible: the lookup's transition relation over four abstract entry states (only the unknown state becomes fetching, exactly the requests that find it fetching are registered as waiters and get the registered channel, a hit returns the stored response), the locked wrapper (lookup under the write lock; a woken waiter re-evaluates under the lock), get-or-create of the entry in one shard critical section, the shard function, the cache middleware forwarding only non-hit states exactly once, and the stored expiry being the clock plus a positive lifetime (an entry stored already expired makes every waiter the next fetcher). The schedule quantifier itself (that the Go runtime, given these shapes, yields one fetch on every interleaving) is not decided.",
+		"Decides, on every control-flow path, the mechanism that makes one-fetch-per-unknown-key possible: the lookup's transition relation over four abstract entry states (only the unknown state becomes fetching, exactly the requests that find it fetching are registered as waiters and get the registered channel, a hit returns the stored response), the locked wrapper (lookup under the write lock; a woken waiter re-evaluates under the lock), get-or-create of the entry in one shard critical section, the shard function, the cache middleware forwarding only non-hit states exactly once, a persisted record being loaded inside the locked lookup only (never applied over a state another request has already advanced), a reload keeping every surviving cache's entries (an in-flight fetch stays the key's only fetch), and the stored expiry being the clock plus a positive lifetime (an entry stored already expired makes every waiter the next fetcher). The schedule quantifier itself (that the Go runtime, given these shapes, yields one fetch on every interleaving) is not decided.",
 		nil, func(c *Ctx) {
 			withAnchors(c, func(a *serverAnchors) {
-				ruleLookup(c, a.cacheA, set("lookup-shape", "state-determined", "no-exit-unknown", "fetching-only-from-unknown", "registration", "returned-status", "hit-data", "invariant-waiters", "no-waiter-dropped"))
+				ruleLookup(c, a.cacheA, set("lookup-shape", "state-determined", "no-exit-unknown", "fetching-only-from-unknown", "registration", "returned-status", "hit-data", "invariant-waiters", "no-waiter-dropped", "load-on-first-lookup", "load-only-when-unknown"))
+				ruleKeepCache(c)
 				ruleLockedWrapper(c, a.cacheA)
 				ruleCacheMiddleware(c, a, set("hit-does-not-forward", "hit-serves-stored", "forward-once", "entry-of-request-key", "completion-only-by-fetcher"))
 				ruleProxyMiddleware(c, a, set("forward-once"))
@@ -96,10 +97,10 @@ func init() {
 			})
 		})
 	register("C07",
-		"Decides, for all configured periods: a lookup in hit-for-pass state is never queued and never served a response; the marker always gets a period >= 1 (the default when the configured one is <= 0) added to the clock; it lapses through the same expiry test as hits; the configured period is what the fetcher passes; non-fetcher requests never complete (extend) the entry; hit-for-pass requests are forwarded once and reach the upstream with their headers untouched; the upstream transport puts no cap on connections per host (forwarded requests do not queue behind one another inside net/http). Timed histories are not decided.",
+		"Decides, for all configured periods: a lookup in hit-for-pass state is never queued and never served a response; the marker always gets a period >= 1 (the default when the configured one is <= 0) added to the clock; it lapses through the same expiry test as hits, and that test keeps the entry through its expiry second (expired iff expiredAt < now), so the period is not cut short; the configured period is what the fetcher passes; non-fetcher requests never complete (extend) the entry; hit-for-pass requests are forwarded once and reach the upstream with their headers untouched; the upstream transport puts no cap on connections per host (forwarded requests do not queue behind one another inside net/http). Timed histories are not decided.",
 		nil, func(c *Ctx) {
 			withAnchors(c, func(a *serverAnchors) {
-				ruleLookup(c, a.cacheA, set("state-determined", "registration", "hit-data", "expiry-applied", "invariant-expiry", "returned-status"))
+				ruleLookup(c, a.cacheA, set("state-determined", "registration", "hit-data", "expiry-applied", "expiry-exact", "invariant-expiry", "returned-status"))
 				ruleCompletionPaths(c, a.cacheA, set("completes-on-every-path", "ttl-positive", "expiry-value"))
 				ruleCacheMiddleware(c, a, set("ticket-discharge", "hit-for-pass-period", "completion-only-by-fetcher", "forward-once"))
 				ruleProxyMiddleware(c, a, set("withheld-on-fetch", "lifetime-plumbing"))
